@@ -276,11 +276,12 @@ def oldNext (chain : List Stage) (core : Next) (orig : Option Msg) : Nat → Nex
 
 /-- WHERE the server makes the batch context whose header `GetRequestHeader(ctx)` /
     `GetProtocolVersion(ctx)` report to the operation handlers (kmipserver/router.go):
-    * `entry`: `HandleRequest` does, from the request it is given, BEFORE the message chain runs
-      (the code at /repo HEAD): handlers are told the header of the ORIGINAL message even when a
+    * `entry`: only `HandleRequest` does, from the request it is given, BEFORE the message chain runs
+      (the code before 4b5c841): handlers are told the header of the ORIGINAL message even when a
       message middleware passed another one on;
-    * `core`: the core handler `handleRequest` does, from the message it is given (the proposed
-      repair).
+    * `core`: the core handler `handleRequest` does, from the message it is given (the code at /repo
+      HEAD, since 4b5c841; `HandleRequest` still makes one for the middlewares, which the handlers'
+      context shadows).
     The engine determines which one the real code is by probing it. -/
 inductive HdrMode where
   | entry | core
@@ -294,8 +295,9 @@ def hdrFn : HdrMode → Kind → Msg → Msg → Nat
   | .core, .srvmsg, _ => fun m => m.tok
   | _, _, m0 => fun _ => m0.tok
 
-/-- the code at /repo HEAD. -/
-def hdrOf (k : Kind) (m0 : Msg) : Msg → Nat := hdrFn .entry k m0
+/-- the code at /repo HEAD: the handlers' context reports the header of the message the core handler
+    was given. -/
+def hdrOf (k : Kind) (m0 : Msg) : Msg → Nat := hdrFn .core k m0
 
 /-- what the entry point does with the pair returned by the outermost stage (`op0`: the operation
     of the request the entry point was given).
@@ -330,10 +332,10 @@ def runImpl (k : Kind) (chain : List Stage) (core : Core) (m0 : Msg) (c0 : Nat) 
   mkRun k m0.op (nextFrom chain (coreRun k core (hdrOf k m0)) 0 m0 c0 St.init)
 
 def runOld (k : Kind) (chain : List Stage) (core : Core) (m0 : Msg) (c0 : Nat) : Run :=
-  mkRun k m0.op (oldNext chain (coreRun k core (hdrOf k m0)) (if k = .srvmsg then some m0 else none)
+  mkRun k m0.op (oldNext chain (coreRun k core (hdrFn .entry k m0)) (if k = .srvmsg then some m0 else none)
     (chain.length + 1) m0 c0 St.init)
 
-/-- the same with the header mode as a parameter (`runImpl = runImplH .entry`). -/
+/-- the same with the header mode as a parameter (`runImpl = runImplH .core`). -/
 def runImplH (hm : HdrMode) (k : Kind) (chain : List Stage) (core : Core) (m0 : Msg) (c0 : Nat) :
     Run :=
   mkRun k m0.op (nextFrom chain (coreRun k core (hdrFn hm k m0)) 0 m0 c0 St.init)
